@@ -721,7 +721,8 @@ class Text(JupyterMixin):
         """
         assert len(character) == 1, "Character must be a string of length 1"
         if count > 0:
-            pad_characters = character * count
+            pad_characters = strip_control_codes(character * count)
+            count = len(pad_characters)
             self.plain = f"{pad_characters}{self.plain}{pad_characters}"
             _Span = Span
             self._spans[:] = [
@@ -738,7 +739,9 @@ class Text(JupyterMixin):
         """
         assert len(character) == 1, "Character must be a string of length 1"
         if count > 0:
-            self.plain = f"{character * count}{self.plain}"
+            pad_characters = strip_control_codes(character * count)
+            count = len(pad_characters)
+            self.plain = f"{pad_characters}{self.plain}"
             _Span = Span
             self._spans[:] = [
                 _Span(start + count, end + count, style)
